@@ -1349,9 +1349,13 @@ def run(ck: Check):
     ck.coverage['phase_s'] = {'lean': round(time.time() - t0, 1)}
     rng = ck.rng
     thorough = ck.tier == 'thorough'
+    units_only = False
     if ck.replay_path:
         body = json.loads(open(ck.replay_path).read())
-        specs = [body['replay']['spec']]
+        if 'spec' in body['replay']:
+            specs = [body['replay']['spec']]
+        else:       # a unit-level disagreement: the enumeration is the replay
+            specs, units_only = [], True
     else:
         specs = gen_specs(rng, thorough)
     ck.coverage['rule'] = (
@@ -1391,17 +1395,23 @@ def run(ck: Check):
         bg = ctx.Process(target=_bg_chunk, args=(serial, q, lock_wait, job_s))
         bg.start()
     unit_dis, explicit = [], []
+
+    def units(pool):
+        from harness.c09_unit import run_units
+        tu = time.time()
+        res_u = run_units(ck, pool, nproc, thorough, [tuple(p) for p in PARAMS] + [
+            tuple(rand_params(rng)) for _ in range(12)])
+        ck.coverage['phase_s']['unit'] = round(time.time() - tu, 1)
+        return res_u
     if len(par) <= 4:
+        if units_only:
+            with ctx.Pool(nproc) as pool:
+                unit_dis, explicit = units(pool)
         results = _run_chunk(par)
     else:
         with ctx.Pool(nproc) as pool:
             if not ck.replay_path:
-                from harness.c09_unit import run_units
-                tu = time.time()
-                unit_dis, explicit = run_units(ck, pool, nproc, thorough,
-                                               [tuple(p) for p in PARAMS] + [
-                                                   tuple(rand_params(rng)) for _ in range(12)])
-                ck.coverage['phase_s']['unit'] = round(time.time() - tu, 1)
+                unit_dis, explicit = units(pool)
             # long cases first, so that no worker is left alone with them at the end
             par.sort(key=lambda sp: -(sp['nops'] * (3 if sp.get('adv') else 1)
                                       + (200 if sp.get('looping') else 0)))
